@@ -1,4 +1,5 @@
 import torch
+from torch.autograd.function import once_differentiable
 
 
 class RBFCovariance(torch.autograd.Function):
@@ -21,6 +22,7 @@ class RBFCovariance(torch.autograd.Function):
         return covar_mat
 
     @staticmethod
+    @once_differentiable
     def backward(ctx, grad_output):
         d_output_d_input = ctx.saved_tensors[0]
         lengthscale_grad = grad_output * d_output_d_input
